@@ -137,6 +137,7 @@ func (l *Lexer) restore(s lexerSnapshot) {
 }
 
 func (l *Lexer) NextToken() Token {
+restart:
 	l.skipWhitespace()
 
 	// 记录token开始位置
@@ -239,7 +240,7 @@ func (l *Lexer) NextToken() Token {
 			l.errorRecovery.AddError(err)
 		}
 		l.readChar()
-		return l.NextToken() // 跳过无效字符，继续解析
+		goto restart // 跳过无效字符，继续解析（循环而非递归：长串无效字符不应耗尽栈）
 	case '\'':
 		return l.readStringToken(tokenPos, tokenLine, tokenColumn)
 	case '"':
@@ -275,7 +276,7 @@ func (l *Lexer) NextToken() Token {
 			l.errorRecovery.AddError(err)
 		}
 		l.readChar()
-		return l.NextToken() // 跳过无效字符，继续解析
+		goto restart // 跳过无效字符，继续解析（循环而非递归：长串无效字符不应耗尽栈）
 	}
 
 	return Token{Type: TokenEOF, Pos: tokenPos, Line: tokenLine, Column: tokenColumn}
